@@ -56,6 +56,14 @@ Inductive case :=
       the exchange succeeded (for tls/https that means the certificate for
       [cert] was accepted) *)
 | CNet (a : uin) (socks : bool) (cert : san) (obs : option (list (dest * N) * str * str * bool))
+  (** NewUpstream with Opt.Bootstrap = [bs] (no proxy): created? [bs_ip] =
+      netip.ParseAddr (run by the driver) accepts the host text of [bs] *)
+| CNewB (a : uin) (bs : inp) (bs_ip : bool) (obs : bool)
+  (** as CNet without proxy, with Opt.Bootstrap = [bs], the address of a DNS
+      server of the harness that answers every name with the address [ans];
+      the observation also lists the distinct names that server was asked for *)
+| CBoot (a : uin) (bs : str) (ans : list N) (cert : san)
+        (obs : option (list (dest * N) * list str * str * str * bool))
   (** the code under test panicked on these input strings *)
 | CPanic (a b : str).
 
@@ -96,6 +104,21 @@ Definition in_domain (addr : str) : bool := forallb url_safe addr.
 
 Definition is_some {A} (o : option A) : bool := match o with Some _ => true | None => false end.
 
+Definition no_names (l : list str) : bool := match l with [] => true | _ => false end.
+
+(** Host header (https), SNI and certificate verdict the model predicts *)
+Definition agree_upper (t : target) (cert : san) (sni hh : str) (ok : bool) : bool :=
+  match t_transport t, t_http_host t with
+  | THttps, Some h => negb ok || str_eqb hh h
+  | _, _ => is_nil hh
+  end
+  && match t_transport t, t_tls_name t with
+     | TTls, Some name | THttps, Some name =>
+       str_eqb sni (if ip_literal name then [] else strip_dots name) && Bool.eqb ok (san_matches name cert)
+     | TUdp, _ | TTcp, _ => is_nil sni && ok
+     | _, _ => is_nil sni && negb ok          (* quic / h3: only the first datagram is observed *)
+     end.
+
 Definition agree (c : case) : bool :=
   match c with
   | CTrim s obs => str_eqb (trim_v6_brackets s) obs
@@ -128,16 +151,24 @@ Definition agree (c : case) : bool :=
       | [(d, port)] => dest_matches d (t_host t) && (port =? t_port t)
       | _ => false
       end
-      && match t_transport t, t_http_host t with
-         | THttps, Some h => negb ok || str_eqb hh h
-         | _, _ => is_nil hh
-         end
-      && match t_transport t, t_tls_name t with
-         | TTls, Some name | THttps, Some name =>
-           str_eqb sni (if ip_literal name then [] else strip_dots name) && Bool.eqb ok (san_matches name cert)
-         | TUdp, _ | TTcp, _ => is_nil sni && ok
-         | _, _ => is_nil sni && negb ok          (* quic / h3: only the first datagram is observed *)
-         end
+      && agree_upper t cert sni hh ok
+    | _, _ => false
+    end
+  | CNewB a bs _ obs =>
+    negb (in_domain (uin_addr a))
+    || Bool.eqb (is_some (new_upstream_bs ip_literal (uin_addr a) (uin_dial a) false (inp_str bs))) obs
+  | CBoot a bs ans cert obs =>
+    negb (in_domain (uin_addr a)) ||
+    match new_upstream_bs ip_literal (uin_addr a) (uin_dial a) false bs, obs with
+    | None, None => true
+    | Some (t, plan), Some (dests, asked, sni, hh, ok) =>
+      match plan, dests with
+      | DialLiteral h p, [(d, port)] => dest_matches d h && (port =? p) && no_names asked
+      | DialBootstrap h p, [(DIp b, port)] =>
+        ip_eqb b ans && (port =? p) && list_eqb str_eqb asked [h ++ [c_dot]]
+      | _, _ => false
+      end
+      && agree_upper t cert sni hh ok
     | _, _ => false
     end
   | CPanic _ _ => false
@@ -230,6 +261,19 @@ Definition must_create (scheme : str) (e : ep) (path : str) (dial : option ep)
     else None
   end.
 
+(** TLS name = URL host: SNI for names, certificate verdict for both *)
+Definition spec_upper (tr : transport) (e : ep) (url_ip : option (list N)) (cert : san) (sni : str) (ok : bool) : bool :=
+  match tr with
+  | TTls | THttps =>
+    match url_ip with
+    | Some b => is_nil sni && Bool.eqb ok (match cert with SanIp b' => ip_eqb b b' | _ => false end)
+    | None => str_eqb sni (strip_dots (ep_host e))
+              && Bool.eqb ok (match cert with SanName s => str_eqb s (ep_host e) | _ => false end)
+    end
+  | TUdp | TTcp => ok
+  | _ => true
+  end.
+
 Definition spec (c : case) : bool :=
   match c with
   | CTrim s obs => spec_trim s obs
@@ -275,16 +319,55 @@ Definition spec (c : case) : bool :=
           | [(d, port)] => dest_is d eff_ip h && (port =? (if p =? 0 then def else p))
           | _ => false
           end
-          && match tr with
-             | TTls | THttps =>
-               match url_ip with
-               | Some b => is_nil sni && Bool.eqb ok (match cert with SanIp b' => ip_eqb b b' | _ => false end)
-               | None => str_eqb sni (strip_dots (ep_host e))
-                         && Bool.eqb ok (match cert with SanName s => str_eqb s (ep_host e) | _ => false end)
+          && spec_upper tr e url_ip cert sni ok
+        | _, _ => false
+        end
+      | Some _, _ => false
+      | None, _ => true
+      end
+    end
+  | CNewB a bs bs_ip obs =>
+    match a with
+    | URaw _ _ => true
+    | UMean scheme e path dial eff_ip _ =>
+      let bs_good :=
+        match bs with
+        | IRaw [] => Some true
+        | IRaw _ => None
+        | IEp be =>
+          match denotes false be 53 with
+          | Some (Some _) => Some bs_ip
+          | Some None => Some false
+          | None => None
+          end
+        end in
+      match must_create scheme e path dial eff_ip false, bs_good with
+      | Some b, Some g => Bool.eqb obs (b && g)
+      | Some false, None | None, Some false => negb obs
+      | _, _ => true
+      end
+    end
+  | CBoot a bs ans cert obs =>
+    match a with
+    | URaw _ _ => true
+    | UMean scheme e path dial eff_ip url_ip =>
+      match must_create scheme e path dial eff_ip false, obs with
+      | Some false, None => true
+      | Some true, Some (dests, asked, sni, _, ok) =>
+        let eff := match dial with Some d => d | None => e end in
+        match lookup_scheme scheme,
+              match dial with Some d => denotes false d 0 | None => denotes true e 0 end with
+        | Some (tr, def), Some (Some (h, p)) =>
+          match dests with
+          | [(DIp b, port)] =>
+            (port =? (if p =? 0 then def else p))
+            && match eff_ip with
+               | Some ip => ip_eqb b ip && no_names asked          (* an IP literal is not resolved *)
+               | None => ip_eqb b ans && list_eqb str_eqb asked [h ++ [c_dot]]
                end
-             | TUdp | TTcp => ok
-             | _ => true
-             end
+          | _ => false
+          end
+          && spec_upper tr e url_ip cert sni ok
         | _, _ => false
         end
       | Some _, _ => false
@@ -305,7 +388,7 @@ Definition nontrivial (c : case) : bool :=
   | CSplit s _ | CRemove s _ => v6ish (inp_str s) || negb (has c_colon (inp_str s))
   | CParse u d _ _ =>
     negb (is_nil (inp_str d)) || v6ish (inp_str u) || negb (has c_colon (inp_str u))
-  | CNew a _ _ | CNet a _ _ _ =>
+  | CNew a _ _ | CNet a _ _ _ | CNewB a _ _ _ | CBoot a _ _ _ _ =>
     in_domain (uin_addr a) &&
     (negb (is_nil (uin_dial a)) || v6ish (uin_addr a)
     || match a with UMean _ e _ _ _ _ => negb (is_some (ep_port e)) | _ => false end)
